@@ -164,7 +164,7 @@ void ppExGCD(word d[], word da[], word db[], const word a[], size_t n,
 			{
 				// da0 <- (da0 + bb) / x, db0 <- (db0 + aa) / x
 				wwXor2(da0, bb, m), wwShLo(da0, m, 1);
-				ASSERT(wwTestBit(db0, 0) == 1);
+				ASSERT(wwTestBit(db0, 0) == wwTestBit(aa, 0));
 				wwXor2(db0, aa, n), wwShLo(db0, n, 1);
 			}
 		// пока v делится на x
@@ -180,7 +180,7 @@ void ppExGCD(word d[], word da[], word db[], const word a[], size_t n,
 			{
 				// da <- (da + bb) / x, db <- (db + aa) / x
 				wwXor2(da, bb, m), wwShLo(da, m, 1);
-				ASSERT(wwTestBit(db, 0) == 1);
+				ASSERT(wwTestBit(db, 0) == wwTestBit(aa, 0));
 				wwXor2(db, aa, n), wwShLo(db, n, 1);
 			}
 		// нормализация
